@@ -149,6 +149,18 @@ Theorem c12_no_pathway_construction_fails : forall (R : StarRing) (Sy : @sys R),
 Proof. intros R Sy H. split; [now apply gen6_all_ok|now apply gen4_all_ok]. Qed.
 Print Assumptions c12_no_pathway_construction_fails.
 
+(* MockTwoDResponseCalculator.calculate_pathway has four separate defaults (widthx, widthy, dephx, dephy), used where a
+   pathway carries a negative width / dephasing (dephy: where it carries a negative WIDTH of the third interval - the
+   pinned code tests widths[3] there); the other theorems are stated for one default.  With equal defaults the two
+   agree, and for a pathway whose widths and first dephasing are not negative - every pathway of the generators, whose
+   look-ups are Gaussian widths and dephasing rates - no default is read at all *)
+Theorem c12_calculator_defaults : forall (R : StarRing) L neg (a b c d dflt : R) gauss (FM : @vec3 R) (p : @pway R),
+  contrib4 L neg dflt dflt dflt dflt gauss FM p = contrib L neg dflt gauss FM p /\
+  (neg (pw_w1 p) = false -> neg (pw_w3 p) = false -> neg (pw_g1 p) = false ->
+   contrib4 L neg a b c d gauss FM p = contrib L neg dflt gauss FM p).
+Proof. intros. split; [apply contrib4_same|apply contrib4_no_default]. Qed.
+Print Assumptions c12_calculator_defaults.
+
 (* non-vacuity: a well-formed program that runs, the same program started from ground state 1 (the constructor leaves
    current[1] = 0, so the first interaction from the right raises), a transfer beyond relax_order is not well formed,
    and the uncoupled aggregates have state 0 as their only ground state *)
